@@ -122,6 +122,14 @@ func (lc *lockCtx) valueOnlyCalled(p ssa.Value) bool {
 		case *ssa.Store:
 			// a parameter captured by reference: spilled into a cell that closures bind; every read of the cell must
 			// itself be only invoked, nothing else is ever stored into it, and the closures run synchronously
+			if fa, isFA := x.Addr.(*ssa.FieldAddr); isFA && x.Val == p {
+				// kept in a field of a small state object of the operation (scan := evictionScan{evict: evictNode}; scan.step()):
+				// synchronous when the field is only ever invoked and objects of that type never leave the call tree
+				if f := fieldOf(fa); f != nil && lc.fieldOnlyCalled(f, fa.X.Type()) {
+					continue
+				}
+				return false
+			}
 			a, isAlloc := x.Addr.(*ssa.Alloc)
 			if !isAlloc || x.Val != p || !lc.cellOnlyCalled(a, x, 0) {
 				return false
@@ -175,13 +183,14 @@ func (lc *lockCtx) cellOnlyCalled(cell ssa.Value, init *ssa.Store, depth int) bo
 
 // closureSync: the closure value is only used as an immediately invoked function or handed to callees that only call it.
 func (lc *lockCtx) closureSync(mc *ssa.MakeClosure) bool {
-	for _, u := range usesOf(mc) {
+	for _, uc := range usesThroughConv(mc) {
+		u, xv := uc.use, uc.as
 		c, ok := u.(*ssa.Call)
 		if !ok {
 			return false
 		}
 		cc := c.Common()
-		if cc.Value == ssa.Value(mc) {
+		if cc.Value == xv {
 			continue
 		}
 		callee := calleeOf(c)
@@ -189,7 +198,7 @@ func (lc *lockCtx) closureSync(mc *ssa.MakeClosure) bool {
 			return false
 		}
 		for ai, a := range cc.Args {
-			if a == ssa.Value(mc) && !lc.paramOnlyCalled(callee, ai) {
+			if a == xv && !lc.paramOnlyCalled(callee, ai) {
 				return false
 			}
 		}
@@ -210,11 +219,12 @@ func (lc *lockCtx) collect() {
 					return
 				}
 				target = origin(target)
-				for _, u := range usesOf(x) {
+				for _, uc := range usesThroughConv(x) {
+					u, xv := uc.use, uc.as
 					switch c := u.(type) {
 					case *ssa.Call:
 						cc := c.Common()
-						if cc.Value == ssa.Value(x) {
+						if cc.Value == xv {
 							lc.sites[target] = append(lc.sites[target], c) // immediately invoked
 							continue
 						}
@@ -222,7 +232,7 @@ func (lc *lockCtx) collect() {
 						synchronous := callee != nil
 						if callee != nil {
 							for ai, a := range cc.Args {
-								if a == ssa.Value(x) && !lc.paramOnlyCalled(callee, ai) {
+								if a == xv && !lc.paramOnlyCalled(callee, ai) {
 									synchronous = false
 								}
 							}
@@ -774,3 +784,139 @@ func tryMethod(fn *ssa.Function, inner []*types.Var, depth int) bool {
 	})
 	return ok && n > 0
 }
+
+
+// usesThroughConv: the uses of a function value, looking through conversions to a named function type
+// (type evictFunc func(...); f(evictFunc(c.evictNode))): each use with the value it sees.
+type convUse struct {
+	use ssa.Instruction
+	as  ssa.Value
+}
+
+func usesThroughConv(v ssa.Value) []convUse {
+	var out []convUse
+	for _, u := range usesOf(v) {
+		if ct, ok := u.(*ssa.ChangeType); ok {
+			out = append(out, usesThroughConv(ct)...)
+			continue
+		}
+		out = append(out, convUse{u, v})
+	}
+	return out
+}
+
+
+// fieldOnlyCalled: the function-typed field f of the module struct type behind t is, everywhere in the module, only
+// stored into and invoked (never copied out, compared, passed on), and values of that struct type stay inside the call
+// tree that created them: they are not stored into other objects or globals, not converted to interfaces, not captured
+// by closures, not handed to go / defer statements.
+func (lc *lockCtx) fieldOnlyCalled(f *types.Var, t types.Type) bool {
+	key := f.Origin()
+	if v, ok := fieldOnlyCalledMemo[key]; ok {
+		return v
+	}
+	fieldOnlyCalledMemo[key] = false
+	tn := namedTypeName(derefType(t))
+	if tn == "" {
+		return false
+	}
+	if n, ok := derefType(t).(*types.Named); !ok || n.Obj().Pkg() == nil || !strings.HasPrefix(n.Obj().Pkg().Path(), modPath) {
+		return false
+	}
+	isT := func(v ssa.Value) bool { return v != nil && namedTypeName(derefType(v.Type())) == tn }
+	ok := true
+	why := ""
+	for _, fn := range lc.cx.P.ModuleFuncs() {
+		allInstrs(fn, func(in ssa.Instruction) {
+			if !ok {
+				return
+			}
+			// uses of the field
+			var fieldVal ssa.Value
+			switch x := in.(type) {
+			case *ssa.FieldAddr:
+				if sameField(fieldOf(x), key) {
+					for _, r := range *x.Referrers() {
+						switch y := r.(type) {
+						case *ssa.Store:
+							if y.Addr != ssa.Value(x) {
+								ok, why = false, "address of the field stored"
+							}
+						case *ssa.UnOp:
+							fieldVal = y
+							for _, u := range usesOf(y) {
+								if c, isC := u.(*ssa.Call); isC && c.Call.Value == ssa.Value(y) {
+									continue
+								}
+								if _, dbg := u.(*ssa.DebugRef); dbg {
+									continue
+								}
+								ok, why = false, "field value used other than by calling it in "+fn.Name()
+							}
+						case *ssa.DebugRef:
+						default:
+							ok, why = false, "field address escapes"
+						}
+					}
+				}
+			case *ssa.Field:
+				if sameField(fieldOf(x), key) {
+					for _, u := range usesOf(x) {
+						if c, isC := u.(*ssa.Call); isC && c.Call.Value == ssa.Value(x) {
+							continue
+						}
+						if _, dbg := u.(*ssa.DebugRef); dbg {
+							continue
+						}
+						ok, why = false, "field value used other than by calling it"
+					}
+				}
+			}
+			_ = fieldVal
+			// objects of the type
+			esc := func(v ssa.Value) {
+				if isT(v) {
+					ok, why = false, fmt.Sprintf("object of the type escapes via %T in %s", in, fn.Name())
+				}
+			}
+			switch x := in.(type) {
+			case *ssa.Store:
+				if isT(x.Val) {
+					if _, local := x.Addr.(*ssa.Alloc); !local {
+						esc(x.Val)
+					}
+				}
+			case *ssa.MakeInterface:
+				esc(x.X)
+			case *ssa.MakeClosure:
+				for _, b := range x.Bindings {
+					if isT(b) {
+						// a pointer to the object captured by a closure: only when the closure is synchronous
+						if !lc.closureSync(x) {
+							esc(b)
+						}
+					}
+				}
+			case *ssa.Go:
+				for _, a := range x.Call.Args {
+					esc(a)
+				}
+			case *ssa.Defer:
+				for _, a := range x.Call.Args {
+					esc(a)
+				}
+			case *ssa.Send:
+				esc(x.X)
+			case *ssa.MapUpdate:
+				esc(x.Value)
+			}
+		})
+	}
+	if os.Getenv("OTTERLINT_TRACE") != "" && !ok {
+		fmt.Fprintf(os.Stderr, "fieldOnlyCalled %s.%s: %s\n", tn, f.Name(), why)
+	}
+	fieldOnlyCalledMemo[key] = ok
+	return ok
+}
+
+var fieldOnlyCalledMemo = map[*types.Var]bool{}
